@@ -185,7 +185,16 @@ Fixpoint pyres (fuel : nat) (strict : bool) (t : fsnode) (stack : list path) (cu
         match lget t np with
         | KErr e => if strict then PErr e else pyres f strict t stack np r
         | KOk (Link tg) =>
-          if mem_path np stack then (if strict then PErr ERuntime else PBail (np ++ r))
+          if mem_path np stack then
+            (if strict
+             then (* os.stat(newpath): normally ELOOP, which Path.resolve turns into RuntimeError;
+                     the kernel may object earlier, e.g. ENOTDIR for "file/.." inside a target *)
+                  PErr (match kwalk f MAXSYMLINKS t [] np true with
+                        | KErr ELoop => ERuntime
+                        | KErr e => e
+                        | KOk _ => ERuntime
+                        end)
+             else PBail (np ++ r))
           else match pyres f strict t (np :: stack) (if is_abs tg then [] else cur) (comps tg) with
                | PDone mid => pyres f strict t stack mid r
                | PBail q => PBail (q ++ r)
